@@ -20,6 +20,7 @@ void harness_init() { quiet_gsl(); }
 static const char* CLS[] = {"antihermitian", "normal", "dense", "diagonal", "nilpotent", "triangular", "diag+tiny", "row-scales", "rank1-nilpotent", "sparse", "sparse"};
 
 struct ExpCase { int n; unsigned cls; Mat A; Mat exact; bool has_exact; ld cond_bound; bool has_cond; ld target; };
+static thread_local bool ci_background = false;
 
 static ld gen_norm(ByteSource& s, double maxlog10) {
   // log-uniform in [1e-8, 10^maxlog10], with extra mass near the Pade band edges
@@ -120,6 +121,13 @@ static ExpCase gen_case(ByteSource& s) {
       } else {
         for (int i = 0; i < n; i++) for (int j = 0; j < n; j++) if (s.choose(3) == 0) R.a[i][j] = cld(smallint(), s.flag() ? (double)smallint() : 0.0);
       }
+      // (tail byte) a faint background on every other entry: the pattern is then not exactly blind to a sampling estimator, only nearly
+      unsigned bgk = s.tail_choose(4);
+      if (bgk == 1) {
+        ld bg = powl(10.0L, -(ld)(2 + s.tail_choose(8)));
+        for (int i = 0; i < n; i++) for (int j = i; j < n; j++) if (R.a[i][j] == cld(0, 0) && R.a[j][i] == cld(0, 0)) { ld v = bg * (1 + (ld)((i * 7 + j * 3) % 5)); R.a[i][j] = R.a[j][i] = cld(v, 0); }
+        ci_background = true;
+      }
       bool antiherm = symmetric && phase == 2;
       if (s.flag()) N = powl(10.0L, 3 * (ld)s.unif01());  // half of the class in the scaling-and-squaring range
       if (!antiherm && N > 50) N = 50 * (N / 1000);  // the wide norm range is for the normal, bounded-spectrum matrices only
@@ -169,7 +177,7 @@ static Mat lib_exp(const Mat& A) {
 static ld check_exp(const ExpCase& c, CaseInfo& ci, Mat* Xout, Mat* Eout) {
   int n = c.n;
   int sq = 0; int band = is_diagonal(c.A) ? 0 : band_of(c.A, &sq);
-  ci.label(fmt("n%d-m%d", n, band)); ci.label(std::string("cls-") + CLS[c.cls]);
+  ci.label(fmt("n%d-m%d", n, band)); ci.label(std::string("cls-") + CLS[c.cls]); if (ci_background) { ci.label("sparse-with-background"); ci_background = false; }
   if (band == 13) ci.label(fmt("squarings-%d", std::min(sq, 9)));
   std::string ctx = fmt("n=%d class=%s target-norm=%.3Lg band=%d A=%s", n, CLS[c.cls], c.target, band, mat_str(c.A).c_str());
   ci.sample = ctx;
